@@ -219,7 +219,13 @@ def run_case(case, trace_lines=True):
             tr.stopped_by_consumer = True
             sched.event('stop-begin', None, yield_after=False)
             if stop['kind'] == 'close':
-                it.close()
+                try:
+                    it.close()
+                except detsched.Abort:
+                    raise
+                except BaseException as e:  # noqa: judged by judge_termination
+                    e.__traceback__ = None
+                    tr.close_exc = e
             elif stop['kind'] == 'del':
                 del it
             else:
@@ -277,6 +283,10 @@ def judge_termination(tr):
         raise Violation(f'deadlock|{tr.case["kind"]}', f'{describe(tr)}\n{tr.sched.deadlock}')
     if tr.outcome == 'steplimit':
         raise Violation(f'livelock|{tr.case["kind"]}', f'{describe(tr)}\nstep limit of {tr.sched.max_steps} exceeded')
+    if getattr(tr, 'close_exc', None) is not None:
+        raise Violation(f'close-raised|{tr.case["kind"]}',
+                        f'{describe(tr)}\nthe consumer stopped after {len(tr.delivered)} examples; close() raised '
+                        f'{tr.close_exc!r} (an error of an example the consumer never asked for)')
     if tr.unfinished_at_return:
         raise Violation(f'thread-alive-after-return|{tr.case["kind"]}',
                         f'{describe(tr)}\nlogical threads not finished when control returned: '
